@@ -103,7 +103,11 @@ def main():
                       'contains no guarded code: all monitors attach from '
                       'outside (wrappers, sys.monitoring line probes, '
                       'sanitizer builds made out-of-tree from the working '
-                      'tree).',
+                      'tree). /repo commit 81e13fd ("uncommitted hook '
+                      'changes") is not a hook: it is a seeded test change '
+                      'left applied by an earlier version of '
+                      'tools/seed_check.sh, and is undone by fix: 8916c08 '
+                      '(DESIGN.md section 10).',
             'baseline_off_cmd': 'cd /repo && /venv/bin/python -m pytest -ra -q '
                                 '-p no:cacheprovider --timeout=900 '
                                 '--continue-on-collection-errors',
